@@ -14,10 +14,39 @@ from c09 import MsgProp, C09  # noqa: E402
 class C10(MsgProp):
     id = 'C10'
     props_modules = ['CylcModel.Props.C10']
-    theorems = []
-    statement_note = ''
-    technique = C09.technique
-    rule = C09.rule
+    theorems = [
+        'CylcModel.C10.stale_ignored',
+        'CylcModel.C10.stale_ignored_sched',
+        'CylcModel.C10.stale_poll_counterexample',
+        'CylcModel.C10.stale_poll_ignored',
+        'CylcModel.C10.backward_polls',
+        'CylcModel.C10.backward_polls_sched',
+        'CylcModel.C10.converges_succeeded',
+        'CylcModel.C10.converges_failed',
+        'CylcModel.C10.converges_submit_failed',
+        'CylcModel.C10.late_poll_counterexample',
+    ]
+    statement_note = (
+        'partial proof. stale_ignored: a received message of another (so also an older) submit number changes nothing - '
+        'for Msg.step (every task, proxy, text) and for Sched.processMessage (every instance graph and state: the whole '
+        'state is unchanged, no poll). Poll results: process_message itself does not look at their submit number '
+        '(stale_full, stale_poll_counterexample), the protection is the dispatch of jobs-poll output lines by the '
+        'current submit number - modelled in Msg.stepX and proved: stale_poll_ignored. backward_polls: a received '
+        'message of the current job announcing a status behind the current one (lifecycle position: waiting < '
+        'preparing < submitted = submit-failed < running < succeeded = failed) requests a poll and leaves the status '
+        'unchanged - for Msg.step and, through the simulation pm_sim, for Sched.processMessage on graphs without '
+        'self-children in states without transient objects. Convergence, proved for Msg.step over ARBITRARY delivery '
+        'lists (any order, duplicates, stale messages, poll results) followed by the poll result of the actual '
+        'outcome: converges_succeeded (no failure event delivered: status succeeded, submitted/started/succeeded '
+        'complete, all earlier outputs kept, no poll pending), converges_failed (no submission failure delivered: '
+        'failed with the try counter unchanged when no retry was left, waiting with exactly one more try when one '
+        'was - duplicates cannot burn retries - or the proxy already left the pool), converges_submit_failed '
+        '(likewise for submission retries). Without the final truthful poll result the claim is FALSE: '
+        'late_poll_counterexample (a poll result overtaken by succeeded is believed; finding late-poll). Partial: the '
+        'poll itself is the environment (the model assumes the requested poll returns the true outcome); convergence '
+        'is proved for the per-task function and tied to Sched.processMessage message by message (pm_sim), not '
+        'restated over Sched.run; the outputs of the outcome are bounded below (submitted, started, outcome, '
+        'everything completed earlier), not characterised exactly')
 
 
 PROP = C10()
